@@ -119,7 +119,7 @@ func cmdCheck(args []string) {
 	var records []oblRecord
 	discharged, total, violations := 0, 0, 0
 	var lines []string
-	var undecided []string
+	undecided := []string{}
 	var newBase []string
 	os.MkdirAll(filepath.Join(*verif, "replays"), 0o755)
 	knownHit := map[string]bool{}
@@ -208,7 +208,7 @@ func cmdCheck(args []string) {
 	for _, r := range records {
 		nowSet[r.Label] = true
 	}
-	var missing []string
+	missing := []string{}
 	for l := range inBase {
 		if !nowSet[l] {
 			missing = append(missing, l)
@@ -246,7 +246,7 @@ func cmdCheck(args []string) {
 			assume[u] = true
 		}
 	}
-	var assumptions []string
+	assumptions := []string{}
 	for a := range assume {
 		assumptions = append(assumptions, P.describeAssumption(a))
 	}
